@@ -1,5 +1,5 @@
 // Abstract game: replaces board / move_gen / eval / zobrist / timer for the real search.rs and
-// uci.rs (module substitution, DESIGN §2.4).  A complete BR-ary tree with LEVELS levels below the
+// uci.rs (module substitution, DESIGN §2.4).  A complete CLK.br-ary tree with CLK.levels levels below the
 // root; node id lives in Board.halfmove_clock, the (always concrete) level in fullmove_counter.
 // Everything about a node that the engine can observe is a symbolic table entry.
 use crate::moves::{Move, MoveType};
@@ -9,7 +9,7 @@ pub const MAXB: usize = 3;
 pub const MAXN: usize = 40;
 
 pub struct Game {
-    pub nmoves: [u8; MAXN],        // legal moves at node (0..=BR)
+    pub nmoves: [u8; MAXN],        // legal moves at node (0..=CLK.br)
     pub in_check: [bool; MAXN],
     pub qmask: [u8; MAXN],         // bit j: move j is tactical (capture/promotion/check)
     pub eval: [i32; MAXN],
@@ -20,44 +20,44 @@ pub struct Game {
 }
 pub static mut G: Game = Game { nmoves: [0; MAXN], in_check: [false; MAXN], qmask: [0; MAXN], eval: [0; MAXN], hash: [0; MAXN],
     mt: [[0; MAXB]; MAXN], from: [[0; MAXB]; MAXN], white_root: true };
-pub static mut BR: usize = 2;
-pub static mut LEVELS: usize = 2;
 /// Second hash assignment for the relational key-independence check (C13).
+/// All scalar harness state of the abstract game lives in ONE struct with a distinctive `magic` field, so that its
+/// initial bytes cannot coincide with any constant of the compiled code (see the note in envmodel.rs).
+pub struct Clk { pub magic: u64, pub br: usize, pub levels: usize, pub use_hash2: bool, pub polls: u32, pub stop_at: u32, pub stopped: bool,
+    pub nodes_after_stop: u32, pub nodes_since_poll: u32, pub max_nodes_between_polls: u32, pub total_polls_last: u32, pub last_limit_ms: Option<u64>,
+    pub last_depth_seen: u8, pub first_gen_kind: u8, pub first_gen_node: u8 }
+pub static mut CLK: Clk = Clk { magic: 0x5EED_C10C_0BAD_F00D, br: 2, levels: 2, use_hash2: false, polls: 0, stop_at: u32::MAX, stopped: false,
+    nodes_after_stop: 0, nodes_since_poll: 0, max_nodes_between_polls: 0, total_polls_last: 0, last_limit_ms: None, last_depth_seen: 0, first_gen_kind: 0, first_gen_node: 255 };
 pub static mut HASH2: [u64; MAXN] = [0; MAXN];
-pub static mut USE_HASH2: bool = false;
 /// nodes identified as transpositions of another node (same hash, same subtree data): alias[n] = representative
 pub static mut ALIAS: [u8; MAXN] = [0; MAXN];
 
 // clock / instrumentation
-pub static mut POLLS: u32 = 0;
-pub static mut STOP_AT: u32 = u32::MAX;
-pub static mut STOPPED: bool = false;
-pub static mut NODES_AFTER_STOP: u32 = 0;
-pub static mut NODES_SINCE_POLL: u32 = 0;
-pub static mut MAX_NODES_BETWEEN_POLLS: u32 = 0;
-pub static mut TOTAL_POLLS_LAST: u32 = 0;
-pub static mut LAST_LIMIT_MS: Option<u64> = None;
-pub static mut LAST_DEPTH_SEEN: u8 = 0;
+// sentinels: see the note in envmodel.rs; reset_clock() sets the counters to 0
 /// which generator the engine called first since the last reset: 0 none, 1 generate_moves, 2 generate_quiescence_moves
-pub static mut FIRST_GEN_KIND: u8 = 0;
-pub static mut FIRST_GEN_NODE: u8 = 255;
 
 pub fn g() -> &'static Game { unsafe { &*core::ptr::addr_of!(G) } }
 pub fn gm() -> &'static mut Game { unsafe { &mut *core::ptr::addr_of_mut!(G) } }
-pub fn br() -> usize { unsafe { BR } }
-pub fn levels() -> usize { unsafe { LEVELS } }
-pub fn set_shape(b: usize, l: usize) { unsafe { BR = b; LEVELS = l; } }
+pub fn br() -> usize { unsafe { CLK.br } }
+pub fn levels() -> usize { unsafe { CLK.levels } }
+pub fn set_shape(b: usize, l: usize) { unsafe { CLK.br = b; CLK.levels = l; } }
 pub fn child(n: usize, j: usize) -> usize { n * br() + 1 + j }
-/// number of nodes in the complete tree of the current shape
-pub fn node_count() -> usize { let mut t = 0; let mut w = 1; let mut l = 0; while l <= levels() { t += w; w *= br(); l += 1; } t }
-pub fn first_of_level(l: usize) -> usize { let mut t = 0; let mut w = 1; let mut i = 0; while i < l { t += w; w *= br(); i += 1; } t }
+/// number of nodes in the complete tree of the current shape (loop-free: harness-side loops would force a larger
+/// global unwinding bound, and every extra unwinding multiplies the inlined recursion of the engine's search)
+pub fn node_count() -> usize { first_of_level(levels() + 1) }
+pub fn first_of_level(l: usize) -> usize {
+    let b = br();
+    let mut t = 0;
+    if l >= 1 { t += 1; } if l >= 2 { t += b; } if l >= 3 { t += b * b; } if l >= 4 { t += b * b * b; } if l >= 5 { t += b * b * b * b; }
+    t
+}
 
 pub fn mk_move(n: usize, j: usize) -> Move {
     let t = g().mt[n][j];
     let mt = match t { 0 => MoveType::Quiet, 1 => MoveType::Capture, _ => MoveType::Promotion };
     Move::new(g().from[n][j], j as u8, if t == 4 { Piece::Queen } else { Piece::Knight }, mt)
 }
-pub fn reset_clock() { unsafe { POLLS = 0; STOPPED = false; NODES_AFTER_STOP = 0; NODES_SINCE_POLL = 0; MAX_NODES_BETWEEN_POLLS = 0; } }
+pub fn reset_clock() { unsafe { CLK.polls = 0; CLK.stopped = false; CLK.nodes_after_stop = 0; CLK.nodes_since_poll = 0; CLK.max_nodes_between_polls = 0; } }
 
 pub mod board {
     use crate::moves::Move;
@@ -91,7 +91,7 @@ pub mod move_gen {
         pub fn new() -> Self { MoveGenerator }
         pub fn generate_moves(&self, b: &Board) -> Vec<Move> {
             let n = b.node();
-            unsafe { if FIRST_GEN_KIND == 0 { FIRST_GEN_KIND = 1; FIRST_GEN_NODE = n as u8; } }
+            unsafe { if CLK.first_gen_kind == 0 { CLK.first_gen_kind = 1; CLK.first_gen_node = n as u8; } }
             let mut v = Vec::new();
             if b.lvl() >= levels() { return v; }
             if 0 < br() && 0 < g().nmoves[n] { v.push(mk_move(n, 0)); }
@@ -101,7 +101,7 @@ pub mod move_gen {
         }
         pub fn generate_quiescence_moves(&self, b: &Board) -> Vec<Move> {
             let n = b.node();
-            unsafe { if FIRST_GEN_KIND == 0 { FIRST_GEN_KIND = 2; FIRST_GEN_NODE = n as u8; } }
+            unsafe { if CLK.first_gen_kind == 0 { CLK.first_gen_kind = 2; CLK.first_gen_node = n as u8; } }
             let mut v = Vec::new();
             if b.lvl() >= levels() { return v; }
             let q = g().qmask[n];
@@ -127,7 +127,7 @@ pub mod zobrist {
     pub struct ZobristTable;
     impl ZobristTable {
         pub fn new() -> Self { ZobristTable }
-        pub fn hash(&self, b: &Board) -> u64 { unsafe { if USE_HASH2 { HASH2[b.node()] } else { g().hash[b.node()] } } }
+        pub fn hash(&self, b: &Board) -> u64 { unsafe { if CLK.use_hash2 { HASH2[b.node()] } else { g().hash[b.node()] } } }
     }
 }
 pub mod timer {
@@ -138,22 +138,22 @@ pub mod timer {
         pub fn new() -> Self { Self { limited: false, nodes_searched: 0 } }
         pub fn start(&mut self, l: Option<Duration>) {
             self.limited = l.is_some(); self.nodes_searched = 0;
-            unsafe { LAST_LIMIT_MS = match l { Some(d) => Some(crate::hcommon::dur_ms(d)), None => None }; }
+            unsafe { CLK.last_limit_ms = match l { Some(d) => Some(crate::hcommon::dur_ms(d)), None => None }; }
             reset_clock();
         }
         pub fn increment_nodes(&mut self) {
             self.nodes_searched += 1;
             unsafe {
-                if STOPPED { NODES_AFTER_STOP += 1; }
-                NODES_SINCE_POLL += 1;
-                if NODES_SINCE_POLL > MAX_NODES_BETWEEN_POLLS { MAX_NODES_BETWEEN_POLLS = NODES_SINCE_POLL; }
+                if CLK.stopped { CLK.nodes_after_stop += 1; }
+                CLK.nodes_since_poll += 1;
+                if CLK.nodes_since_poll > CLK.max_nodes_between_polls { CLK.max_nodes_between_polls = CLK.nodes_since_poll; }
             }
         }
-        /// The deadline falls after poll number STOP_AT: polls 1..=STOP_AT answer false, later ones true.
+        /// The deadline falls after poll number CLK.stop_at: polls 1..=CLK.stop_at answer false, later ones true.
         pub fn should_stop(&self) -> bool {
-            unsafe { NODES_SINCE_POLL = 0; }
+            unsafe { CLK.nodes_since_poll = 0; }
             if !self.limited { return false; }
-            unsafe { POLLS += 1; let s = POLLS > STOP_AT; if s { STOPPED = true; } s }
+            unsafe { CLK.polls += 1; let s = CLK.polls > CLK.stop_at; if s { CLK.stopped = true; } s }
         }
         pub fn print_info(&self, d: u8, s: i32, m: Option<Move>) { crate::out::info(d, s, self.nodes_searched, m); }
     }
